@@ -250,6 +250,8 @@ func (ev *Eval) eval(e Expr) TV {
 	switch e := e.(type) {
 	case EInt:
 		return TV{T: e.Val, Ty: vtInt}
+	case EStr:
+		return TV{T: ev.vc().strLit(e.Val), Ty: goVT(types.Typ[types.String])}
 	case EBool:
 		if e.Val {
 			return TV{T: "true", Ty: vtBool}
@@ -385,6 +387,12 @@ func (ev *Eval) ident(name string) TV {
 		return TV{Zero: true, T: "0", Ty: vtInt}
 	case "now":
 		return TV{T: ev.ex.get(ev.state(), "CLK", "Int"), Ty: vtInt}
+	case "docount":
+		return TV{T: ev.ex.get(ev.state(), "DOCNT", "Int"), Ty: vtInt}
+	case "dokey":
+		return TV{T: ev.ex.get(ev.state(), "DOKEY", strSort), Ty: goVT(types.Typ[types.String])}
+	case "doran":
+		return TV{T: ev.ex.get(ev.state(), "DORAN", "Bool"), Ty: vtBool}
 	case "gocount":
 		return TV{T: ev.ex.get(ev.state(), "GOCNT", "Int"), Ty: vtInt}
 	case "logn":
@@ -933,6 +941,16 @@ func (ev *Eval) call(e ECall) TV {
 		return TV{T: sSel(ev.ex.get(ev.state(), key, "(Array Int "+srt+")"), i.T), Ty: w.Ty}
 	case "logf":
 		return TV{T: sSel(ev.ex.get(ev.state(), "LOGF", "(Array Int Int)"), arg(0).T), Ty: vtInt}
+	case "logr0", "logr1":
+		// k-th result of the logged call at index i (impure call-log mode); type from a witness expression
+		i := arg(0)
+		w := arg(1)
+		srt := ev.vc().vtSort(w.Ty)
+		key := fmt.Sprintf("LOGR%s:%s", e.Fn[4:], sortIdent(srt))
+		return TV{T: sSel(ev.ex.get(ev.state(), key, "(Array Int "+srt+")"), i.T), Ty: w.Ty}
+	case "logt0", "logt1":
+		// ghost clock when the logged call at index i started (logt0) / returned (logt1)
+		return TV{T: sSel(ev.ex.get(ev.state(), "LOGT"+e.Fn[4:], "(Array Int Int)"), arg(0).T), Ty: vtInt}
 	}
 	if pd, ok := ev.vc().w.Contracts.Preds[e.Fn]; ok {
 		return ev.applyPred(pd, e)
